@@ -114,7 +114,26 @@ def run_net(ctx, keys_for_pid, scripts_cap=None, parts=("honest_exh", "honest_si
         for k, v in (res.get("sync_outcomes") or {}).items():
             syncs[k] = syncs.get(k, 0) + v
         other = []
-        for v in res.get("violations") or []:
+        for v in list(res.get("violations") or []):
+            if v["key"].startswith("net:hang") and isinstance(v.get("replay"), dict):
+                # a call that did not return in time on a busy machine proves nothing by itself: the script is run again,
+                # alone; only a hang that shows again is reported
+                again = False
+                for attempt in range(2):
+                    sf1 = ctx.path("hang_%d.ndjson" % attempt); open(sf1, "w").write(json.dumps(dict(script=v["replay"]["script"])) + "\n")
+                    cf1 = ctx.path("hang_cfg.json"); json.dump(v["replay"]["config"], open(cf1, "w"))
+                    of1 = ctx.path("hang_res.json")
+                    if os.path.exists(of1):
+                        os.remove(of1)
+                    ctx.run([binp, sf1, cf1, of1], timeout=600)
+                    r1 = json.load(open(of1)) if os.path.exists(of1) else {}
+                    if any(x["key"] == v["key"] for x in (r1.get("violations") or [])):
+                        again = True
+                        break
+                if not again:
+                    log("[net] a call exceeded its deadline once (%s) and returned promptly when the script was re-run twice: not reported" % v["key"])
+                    total["unreproduced_deadline_misses"] = total.get("unreproduced_deadline_misses", 0) + 1
+                    continue
             if keys_for_pid(v["key"]):
                 ctx.violation(v["key"], v["what"], v.get("replay"))
             else:
@@ -127,6 +146,6 @@ def run_net(ctx, keys_for_pid, scripts_cap=None, parts=("honest_exh", "honest_si
     need_fin = "honest_sim" in parts
     if not ctx.violations and (total["delivers"] < 100 or branches.get("differentchain", 0) < 10 or (need_fin and total["scripts_with_finality"] == 0)):
         raise Inconclusive("network scripts did not exercise enough (delivers / syncs / finality): vacuous")
-    return dict(net_byzantine_blocks=total["byzantine_forges"], net_byzantine_announcements=total["byzantine_delivers"], net_scripts=total["scripts"], net_restarts=total["restarts"], net_steps=total["steps"], net_forges=total["forges"], net_delivers=total["delivers"],
+    return dict(net_byzantine_blocks=total["byzantine_forges"], net_byzantine_announcements=total["byzantine_delivers"], net_unreproduced_deadline_misses=total.get("unreproduced_deadline_misses", 0), net_scripts=total["scripts"], net_restarts=total["restarts"], net_steps=total["steps"], net_forges=total["forges"], net_delivers=total["delivers"],
                 net_branches=branches, net_sync_outcomes=syncs, net_scripts_with_finality=total["scripts_with_finality"],
                 net_finalized_prefix_pairs_compared=total["finalized_prefix_pairs_compared"], net_sample=(sample or [])[:4])
